@@ -32,7 +32,8 @@ MIN = {'quick': {'distinct': 600,
                            'grammarinput.rcg': 300, 'cli.grammar': 60},
                  'strata': {'lex_in_grammar': 200, 'lopar refused': 50,
                             'latin-1': 100, 'binarized': 300,
-                            'cli rcg as input': 10, 'ambiguous word': 300}},
+                            'cli rcg as input': 5, 'ambiguous word': 300,
+                            'cli binarized markov': 10}},
        'thorough': {'distinct': 30000, 'hooks': {'cli.grammar': 1200}}}
 
 
@@ -292,16 +293,42 @@ def run_cli(ctx, case, rng):
     lig = case.get('lig', False)
     src = common.write(ctx.path('.export'), codec.export_encode(bank))
     prefix = ctx.path('.cli')
-    args = ['grammar', src, prefix, 'treebank', '--src-format', 'export',
+    gramtype = case.get('gramtype', 'treebank')
+    args = ['grammar', src, prefix, gramtype, '--src-format', 'export',
             '--dest-format', fmt, '--dest-enc', enc, '--src-opts', 'quiet']
     if lig:
         args += ['--dest-opts', 'lex_in_grammar']
+    mk = case.get('markov')
+    if mk is not None:
+        args += ['--markov'] + mk
     rc, out, err = common.cli(args)
     ctx.hook('cli.grammar')
     rules, lex = reference(bank)
     counts = Counter()
     for (f, l, v), n in rules.items():
         counts[(f, l)] += n
+    if gramtype != 'treebank':
+        # the driver must hand exactly these options to binarize: compare with
+        # the API binarization (itself monitored by C07/C08) of the reference
+        # grammar; documented defaults v=1, h=2 when a key is not given
+        mode = None
+        if mk is not None:
+            mode = {}
+            for o in mk:
+                if ':' in o:
+                    k_, v_ = o.split(':')
+                    mode[k_] = int(v_)
+                else:
+                    mode[o] = True
+            mode.setdefault('v', 1)
+            mode.setdefault('h', 2)
+        fn = R.grammar.reordering_none if gramtype == 'leftright' \
+            else R.grammar.reordering_optimal
+        with common.captured():
+            g2 = R.grammar.binarize(to_repo_grammar(rules), reordering=fn,
+                                    markov_opts=mode)
+        counts = expected_counts(g2)
+        ctx.stratum('cli binarized' + (' markov' if mk is not None else ''))
     disc = any(len(l) > 1 for (f, l) in counts)
     if fmt == 'lopar' and disc:
         if rc == 0:
@@ -314,7 +341,7 @@ def run_cli(ctx, case, rng):
         return
     if check_files(ctx, fmt, prefix, enc, counts, lex, lig, 'CLI') is not True:
         return
-    if fmt == 'rcg' and not lig:
+    if fmt == 'rcg' and not lig and gramtype == 'treebank':
         # the written grammar as input of the grammar command
         out2 = ctx.path('.again')
         rc, out, err = common.cli(['grammar', prefix, out2, 'treebank',
@@ -426,6 +453,18 @@ def shard(ctx):
         case = draw(rng, modes)
         case.pop('mode', None)
         case['kind'] = 'cli'
+        r = rng.random()
+        if r < 0.5:
+            case['gramtype'] = rng.choice(['leftright', 'optimal'])
+            if rng.random() < 0.7:
+                mk = []
+                if rng.random() < 0.7:
+                    mk.append('v:%d' % rng.randint(0, 2))
+                if rng.random() < 0.7:
+                    mk.append('h:%d' % rng.randint(0, 2))
+                if rng.random() < 0.3 or not mk:
+                    mk.append('nofanout')
+                case['markov'] = mk
         run_cli(ctx, case, rng)
 
 
